@@ -1,16 +1,25 @@
 //! The reverse proxy against a scripted origin: what the origin receives of a request (head and body) and what the client
 //! receives of the origin's response (head and body), whatever the size of the response head and however the origin's
 //! bytes are cut into segments.
-//! in : [front, allow_private] [method_kind] target request_headers(flat) [request_body_len, request_body_seed, pause_before_body_ms]
+//! in : [front, allow_private, origin_down] [method_kind] target request_headers(flat) [request_body_len, request_body_seed, pause_before_body_ms]
 //!      [origin_wants_body, pause_ms, cut...] response_head_bytes [response_body_len, response_body_seed]
 //!        front: 0 = the door after the TLS handshake (HTTP/1.1) | 1 = the real listener over TLS (HTTP/1.1) | 3 = the real
-//!        listener over QUIC + HTTP/3; the SNI is the reverse-proxy host
+//!        listener over QUIC + HTTP/3; the SNI is the reverse-proxy host; origin_down = 1: nobody listens at the origin's address
 //!        bodies are the byte pattern `pat(seed, i)`; the origin answers once it has the request head and `origin_wants_body`
 //!        bytes of body (it gives up after 5 s), writing its response head cut at the given offsets with `pause_ms` between
 //!        the pieces, then the body; it goes on reading afterwards
 //! out: [status] response_headers(flat with numeric lengths, sorted) [response_body_received, response_body_matches]
 //!      origin_request_head [origin_accepts, origin_body_received, origin_body_matches, origin_answered]
 //!      996 = the environment did not let the endpoint listen
+//!
+//! `c18_rp_refusal`: an origin that refuses an upload: it reads the request head only, waits, writes its whole response (head and
+//! body in one piece) and CLOSES without having read the body, while the client is still sending a body far larger than
+//! every buffer on the way. The same exchange is repeated on fresh connections (what the endpoint does at the moment both the
+//! origin's answer and the failure of its own write are there is decided per exchange).
+//! in : [front (0 | 1), rounds] [method_kind] target request_headers(flat) [request_body_len, request_body_seed] [origin_wait_ms]
+//!      response_head_bytes [response_body_len, response_body_seed]
+//! out: [rounds] then per round: [status] response_headers(flat, sorted) [response_body_received, response_body_matches]
+//!      origin_request_head [origin_answered, client_body_bytes_written]; last [origin_accepts]
 use crate::util::*;
 use std::sync::{Arc, Mutex};
 use std::time::Duration;
@@ -55,6 +64,7 @@ fn flat_pairs(t: &Tok) -> Vec<(String, Vec<u8>)> {
 pub fn run(toks: Vec<Tok>) -> Vec<Tok> {
     let front = toks[0][0];
     let allow_private = toks[0].get(1).copied().unwrap_or(0) == 1;
+    let origin_down = toks[0].get(2).copied().unwrap_or(0) == 1;
     let method = match toks[1][0] {
         6 => "GET",
         7 => "POST",
@@ -76,7 +86,10 @@ pub fn run(toks: Vec<Tok>) -> Vec<Tok> {
         let origin = Arc::new(Mutex::new(Origin { body_matches: true, ..Default::default() }));
         let l = TcpListener::bind("127.0.0.1:0").await.unwrap();
         let origin_addr = l.local_addr().unwrap();
-        {
+        if origin_down {
+            // the address stays, the listener goes: connections to it are refused
+            drop(l);
+        } else {
             let origin = origin.clone();
             let resp_head = resp_head.clone();
             tokio::spawn(async move {
@@ -354,5 +367,223 @@ pub fn run(toks: Vec<Tok>) -> Vec<Tok> {
             tok(&o.head),
             vec![o.accepts as u128, o.body_received as u128, o.body_matches as u128, o.answered as u128],
         ]
+    })
+}
+
+#[derive(Default, Clone)]
+struct Refusal {
+    head: Vec<u8>,
+    answered: bool,
+}
+
+pub fn refusal(toks: Vec<Tok>) -> Vec<Tok> {
+    let front = toks[0][0];
+    let rounds = toks[0].get(1).copied().unwrap_or(1) as usize;
+    let method = match toks[1][0] {
+        6 => "GET",
+        7 => "POST",
+        _ => "PUT",
+    };
+    let target = String::from_utf8_lossy(&bytes(&toks[2])).to_string();
+    let headers = flat_pairs(&toks[3]);
+    let req_len = toks[4].first().copied().unwrap_or(0) as usize;
+    let req_seed = toks[4].get(1).copied().unwrap_or(0);
+    let wait = toks[5].first().copied().unwrap_or(0) as u64;
+    let resp_head = bytes(&toks[6]);
+    let resp_len = toks[7].first().copied().unwrap_or(0) as usize;
+    let resp_seed = toks[7].get(1).copied().unwrap_or(0);
+    let rt = tokio::runtime::Builder::new_multi_thread().worker_threads(3).enable_all().build().unwrap();
+    rt.block_on(async move {
+        let conns: Arc<Mutex<Vec<Refusal>>> = Arc::new(Mutex::new(vec![]));
+        let l = TcpListener::bind("127.0.0.1:0").await.unwrap();
+        let origin_addr = l.local_addr().unwrap();
+        {
+            let conns = conns.clone();
+            let mut answer = resp_head.clone();
+            answer.extend((0..resp_len).map(|i| pat(resp_seed, i)));
+            tokio::spawn(async move {
+                loop {
+                    let Ok((mut s, _)) = l.accept().await else { continue };
+                    let _ = s.set_nodelay(true);
+                    let k = {
+                        let mut c = conns.lock().unwrap();
+                        c.push(Refusal::default());
+                        c.len() - 1
+                    };
+                    let conns = conns.clone();
+                    let answer = answer.clone();
+                    tokio::spawn(async move {
+                        let mut got: Vec<u8> = vec![];
+                        let mut buf = vec![0u8; 4096];
+                        let deadline = tokio::time::Instant::now() + Duration::from_secs(10);
+                        // the request head and not a byte more than came with it
+                        let end = loop {
+                            if let Some(p) = find(&got, b"\r\n\r\n") {
+                                break p + 4;
+                            }
+                            match tokio::time::timeout_at(deadline, s.read(&mut buf)).await {
+                                Ok(Ok(n)) if n > 0 => got.extend_from_slice(&buf[..n]),
+                                _ => return,
+                            }
+                        };
+                        conns.lock().unwrap()[k].head = got[..end].to_vec();
+                        tokio::time::sleep(Duration::from_millis(wait)).await;
+                        if s.write_all(&answer).await.is_err() {
+                            return;
+                        }
+                        let _ = s.flush().await;
+                        conns.lock().unwrap()[k].answered = true;
+                        // closed with the body unread
+                        drop(s);
+                    });
+                }
+            });
+        }
+        let make = move |addr: std::net::SocketAddr| {
+            Settings::builder()
+                .listen_address(addr)
+                .unwrap()
+                .listen_protocols(ListenProtocolSettings {
+                    http1: Some(Http1Settings::builder().build()),
+                    http2: Some(Http2Settings::builder().build()),
+                    quic: None,
+                })
+                .reverse_proxy(
+                    ReverseProxySettings::builder()
+                        .server_address(origin_addr.to_string().as_str())
+                        .unwrap()
+                        .path_mask("/rp".to_string())
+                        .build()
+                        .unwrap(),
+                )
+                .build()
+                .unwrap()
+        };
+        let front_hosts = move || {
+            use trusttunnel::settings::TlsHostsSettings;
+            let h = crate::ctxutil::host;
+            TlsHostsSettings::builder().main_hosts(vec![h("localhost")]).reverse_proxy_hosts(vec![h("rp.localhost")]).build().unwrap()
+        };
+        let mut endpoint = None;
+        let mut ctx = None;
+        if front == 0 {
+            ctx = Some(trusttunnel::verif::ctx::make(make("127.0.0.1:1".parse().unwrap()), crate::ctxutil::basic_hosts(), None).unwrap());
+        } else {
+            match crate::front::start(make, front_hosts, None).await {
+                None => return vec![vec![996]],
+                Some(ep) => endpoint = Some(ep),
+            }
+        }
+        // the pattern of the body has a period of 64 KiB
+        let block: Arc<Vec<u8>> = Arc::new((0..65536).map(|i| pat(req_seed, i)).collect());
+        let mut out: Vec<Tok> = vec![vec![rounds as u128]];
+        type BoxIo = Box<dyn crate::engines::c01::Io>;
+        for round in 0..rounds {
+            let mut task = None;
+            let client: BoxIo = if let Some(ctx) = &ctx {
+                let ctx = ctx.clone();
+                let (client, server) = tokio::io::duplex(1 << 16);
+                task = Some(tokio::spawn(async move {
+                    let _ = session::run(&ctx, session::Channel::ReverseProxy, false, server, "198.51.100.7:40000".parse().unwrap(), "localhost".into(), None).await;
+                }));
+                Box::new(client)
+            } else {
+                match crate::front::tls_connect(endpoint.as_ref().unwrap().addr, "rp.localhost", &[b"http/1.1"]).await {
+                    Some(t) => Box::new(t),
+                    None => return vec![vec![996]],
+                }
+            };
+            let mut head = format!("{} {} HTTP/1.1\r\nHost: h\r\n", method, target).into_bytes();
+            for (n, v) in &headers {
+                head.extend_from_slice(n.as_bytes());
+                head.extend_from_slice(b": ");
+                head.extend_from_slice(v);
+                head.extend_from_slice(b"\r\n");
+            }
+            head.extend_from_slice(b"\r\n");
+            let (mut cr, mut cw) = tokio::io::split(client);
+            let written = Arc::new(std::sync::atomic::AtomicUsize::new(0));
+            let writer = {
+                let block = block.clone();
+                let written = written.clone();
+                tokio::spawn(async move {
+                    if cw.write_all(&head).await.is_err() {
+                        return;
+                    }
+                    let mut sent = 0;
+                    while sent < req_len {
+                        let n = (req_len - sent).min(16384);
+                        let at = sent % 65536;
+                        if cw.write_all(&block[at..at + n]).await.is_err() {
+                            return;
+                        }
+                        sent += n;
+                        written.store(sent, std::sync::atomic::Ordering::Relaxed);
+                    }
+                    let _ = cw.flush().await;
+                    // the connection stays open from this side
+                    std::future::pending::<()>().await;
+                })
+            };
+            let mut got = vec![];
+            let mut buf = vec![0u8; 65536];
+            let mut head_end = None;
+            let started = tokio::time::Instant::now();
+            while started.elapsed() < Duration::from_millis(wait + 30000) {
+                if let Some(p) = head_end {
+                    if got.len() - p >= resp_len {
+                        break;
+                    }
+                }
+                match tokio::time::timeout(Duration::from_millis(wait + 10000), cr.read(&mut buf)).await {
+                    Ok(Ok(n)) if n > 0 => {
+                        got.extend_from_slice(&buf[..n]);
+                        if head_end.is_none() {
+                            head_end = find(&got, b"\r\n\r\n").map(|p| p + 4);
+                        }
+                    }
+                    _ => break,
+                }
+            }
+            let mut status = 0u128;
+            let mut resp_headers: Vec<(Vec<u8>, Vec<u8>)> = vec![];
+            let mut body_received = 0usize;
+            let mut body_matches = true;
+            if let Some(p) = head_end {
+                let text = got[..p - 4].to_vec();
+                let mut lines = text.split(|b| *b == b'\n');
+                let first = lines.next().unwrap_or(b"");
+                status = String::from_utf8_lossy(first).split(' ').nth(1).and_then(|s| s.trim().parse::<u128>().ok()).unwrap_or(0);
+                for l in lines {
+                    let l = if l.ends_with(b"\r") { &l[..l.len() - 1] } else { l };
+                    if let Some(i) = l.iter().position(|b| *b == b':') {
+                        resp_headers.push((l[..i].to_ascii_lowercase(), l[i + 1..].iter().skip_while(|b| **b == b' ').cloned().collect()));
+                    }
+                }
+                body_received = got.len() - p;
+                body_matches = got[p..].iter().enumerate().all(|(i, b)| *b == pat(resp_seed, i));
+            }
+            writer.abort();
+            drop(cr);
+            if let Some(task) = task {
+                let _ = tokio::time::timeout(Duration::from_millis(300), task).await;
+            }
+            resp_headers.sort();
+            let mut h = vec![];
+            for (n, v) in &resp_headers {
+                h.push(n.len() as u128);
+                h.extend(n.iter().map(|b| *b as u128));
+                h.push(v.len() as u128);
+                h.extend(v.iter().map(|b| *b as u128));
+            }
+            let o = conns.lock().unwrap().get(round).cloned().unwrap_or_default();
+            out.push(vec![status]);
+            out.push(h);
+            out.push(vec![body_received as u128, body_matches as u128]);
+            out.push(tok(&o.head));
+            out.push(vec![o.answered as u128, written.load(std::sync::atomic::Ordering::Relaxed) as u128]);
+        }
+        out.push(vec![conns.lock().unwrap().len() as u128]);
+        out
     })
 }
